@@ -155,6 +155,10 @@ func (r *schemaLoader) resolveRef(ref *Ref, target interface{}, basePath string)
 			return err
 		}
 	}
+	if rv := reflect.ValueOf(res); res == nil || (rv.Kind() == reflect.Ptr && rv.IsNil()) {
+		// the pointer ends at a member the typed document does not hold (e.g. an absent additionalProperties)
+		return fmt.Errorf("%q designates nothing in the document: %w", ref.String(), ErrSpec)
+	}
 	return swag.DynamicJSONToStruct(res, target)
 }
 
